@@ -79,3 +79,143 @@ Proof.
   unfold load, load_from_ir. rewrite Hc. rewrite norm_irrelevant. apply pkg_irrelevant.
 Qed.
 End Chain.
+
+(* ------------------------------------------------------------------ load histories *)
+(* An engine receives several rules files, each either from source (Load) or from a precompiled IR value that lives in a
+   package-level variable and is handed to every LoadFromIR of that file (possibly many times, in many engines). The model
+   keeps: the engine's rule set, the store of precompiled values (LoadFromIR gets a pointer, so the loader returns what the
+   value holds afterwards), and how each entry point commits the freshly loaded rule set into the engine. *)
+Section Histories.
+Variables (src irfile pkginfo ruleset err : Type).
+Variable convert : src -> irfile * pkginfo + err.                            (* convertAST *)
+Variable load_file : option pkginfo -> irfile -> (ruleset + err) * irfile.   (* LoadFile through a pointer: result, and the IR value afterwards *)
+Variable merge : list ruleset -> ruleset + err.                              (* mergeRuleSets *)
+(* the tail of Load / LoadFromIR: how the new rule set joins the engine's (regenerated from engine.go per entry point) *)
+Variables commit_src commit_ir : (list ruleset -> ruleset + err) -> option ruleset -> ruleset -> option ruleset + err.
+
+Inductive lstep := FromSource (s : src) | FromIR (k : nat).
+
+Record lstate := mkLState { l_eng : option ruleset; l_store : list irfile }.
+
+Fixpoint store_upd (k : nat) (f : irfile) (l : list irfile) : list irfile :=
+  match l, k with
+  | [], _ => []
+  | _ :: t, O => f :: t
+  | h :: t, S k' => h :: store_upd k' f t
+  end.
+
+(* a failed load leaves the engine as it was and is reported to the caller *)
+Definition settle (c : option ruleset -> ruleset -> option ruleset + err) (e : option ruleset) (r : ruleset + err)
+  : option ruleset * option err :=
+  match r with
+  | inr x => (e, Some x)
+  | inl rs => match c e rs with inl e' => (e', None) | inr x => (e, Some x) end
+  end.
+
+Definition lexec (st : lstate) (x : lstep) : lstate * option err :=
+  match x with
+  | FromSource s =>
+      match convert s with
+      | inr x => (st, Some x)
+      | inl (f, p) => let (e', o) := settle (commit_src merge) (l_eng st) (fst (load_file (Some p) f)) in
+                      (mkLState e' (l_store st), o)          (* the converted IR is dropped after the load *)
+      end
+  | FromIR k =>
+      match nth_error (l_store st) k with
+      | None => (st, None)
+      | Some f => let (e', o) := settle (commit_ir merge) (l_eng st) (fst (load_file None f)) in
+                  (mkLState e' (store_upd k (snd (load_file None f)) (l_store st)), o)
+      end
+  end.
+
+Fixpoint lrun (st : lstate) (h : list lstep) : lstate * list (option err) :=
+  match h with
+  | [] => (st, [])
+  | x :: h' => let (st1, o) := lexec st x in let (st2, os) := lrun st1 h' in (st2, o :: os)
+  end.
+
+(* --- what the check establishes about the real code *)
+(* frame condition: LoadFile does not write through the pointer (regenerated: no write site reaches an ir value;
+   observed: reflect.DeepEqual with a fresh evaluation of the literal after every LoadFromIR) *)
+Hypothesis load_file_frame : forall pk f, snd (load_file pk f) = f.
+Hypothesis pkg_irrelevant : forall p f, fst (load_file (Some p) f) = fst (load_file None f).
+(* both entry points commit the new rule set in the same way (regenerated tails, equal as Gallina terms) *)
+Hypothesis commit_agree : forall m e r, commit_src m e r = commit_ir m e r.
+
+(* the k-th precompiled value was obtained from source (srcs k): printed and compiled, which the loader cannot tell
+   from the converted IR (file round trip + nil/empty insensitivity) *)
+Variable srcs : nat -> option src.
+Definition compiled_from (f' : irfile) (s : src) : Prop :=
+  exists f p, convert s = inl (f, p) /\ forall pk, fst (load_file pk f') = fst (load_file pk f).
+Definition store_ok (l : list irfile) : Prop :=
+  forall k f', nth_error l k = Some f' -> exists s, srcs k = Some s /\ compiled_from f' s.
+
+Definition to_source (x : lstep) : lstep :=
+  match x with
+  | FromSource s => x
+  | FromIR k => match srcs k with Some s => FromSource s | None => x end
+  end.
+
+Lemma store_upd_same k l f : nth_error l k = Some f -> store_upd k f l = l.
+Proof.
+  revert k; induction l as [|h t IH]; intros [|k] H; cbn in *; try discriminate; try reflexivity.
+  - now inversion H.
+  - now rewrite IH.
+Qed.
+
+Lemma settle_ext c1 c2 e x : (forall e r, c1 e r = c2 e r) -> settle c1 e x = settle c2 e x.
+Proof. intros H. destruct x as [rs|y]; cbn; [rewrite H|]; reflexivity. Qed.
+
+Lemma commit_paths_agree e x : settle (commit_src merge) e x = settle (commit_ir merge) e x.
+Proof. apply settle_ext. intros. apply commit_agree. Qed.
+
+(* no load changes a precompiled value *)
+Lemma lexec_store st x : l_store (fst (lexec st x)) = l_store st.
+Proof.
+  destruct x as [s|k]; cbn [lexec].
+  - destruct (convert s) as [[f p]|y]; [|reflexivity]. destruct (settle _ _ _); reflexivity.
+  - destruct (nth_error (l_store st) k) as [f|] eqn:E; [|reflexivity].
+    destruct (settle _ _ _). cbn. rewrite load_file_frame. now apply store_upd_same.
+Qed.
+
+Lemma lrun_store st h : l_store (fst (lrun st h)) = l_store st.
+Proof.
+  revert st; induction h as [|x h IH]; intros st; [reflexivity|]. cbn [lrun].
+  destruct (lexec st x) as [st1 o] eqn:E1. specialize (IH st1). destruct (lrun st1 h) as [st2 os]. cbn in *.
+  rewrite IH. change st1 with (fst (st1, o)). rewrite <- E1. apply lexec_store.
+Qed.
+
+(* one lstep from the precompiled value = the same lstep from the source it was compiled from *)
+Lemma lexec_to_source st x :
+  store_ok (l_store st) ->
+  match x with FromIR k => nth_error (l_store st) k <> None | _ => True end ->
+  lexec st (to_source x) = lexec st x.
+Proof.
+  intros Hs Hk. destruct x as [s|k]; [reflexivity|].
+  cbn [to_source]. destruct (nth_error (l_store st) k) as [f'|] eqn:E; [|contradiction].
+  destruct (Hs k f' E) as (s & Hsrc & f & p & Hc & Hl). rewrite Hsrc. cbn [lexec]. rewrite Hc, E.
+  rewrite pkg_irrelevant, <- (Hl None), load_file_frame, (store_upd_same _ _ _ E), commit_paths_agree.
+  reflexivity.
+Qed.
+
+(* THE history theorem: any interleaving of source loads and loads of shared precompiled values (any number of times each)
+   leaves the engine, and tells the caller, exactly what the all-source history does; the precompiled values are untouched. *)
+Theorem mixed_history_equals_source_history st h :
+  store_ok (l_store st) ->
+  (forall k, In (FromIR k) h -> nth_error (l_store st) k <> None) ->
+  lrun st (map to_source h) = lrun st h.
+Proof.
+  revert st; induction h as [|x h IH]; intros st Hs Hk; [reflexivity|].
+  cbn [map lrun]. rewrite lexec_to_source; [|assumption|].
+  - destruct (lexec st x) as [st1 o] eqn:E1.
+    assert (Hst : l_store st1 = l_store st) by (change st1 with (fst (st1, o)); rewrite <- E1; apply lexec_store).
+    rewrite IH; [reflexivity| |].
+    + now rewrite Hst.
+    + intros k Hin. rewrite Hst. apply Hk. now right.
+  - destruct x as [s|k]; [exact I|]. apply Hk. now left.
+Qed.
+
+Corollary history_leaves_precompiled_values st h : l_store (fst (lrun st h)) = l_store st.
+Proof. apply lrun_store. Qed.
+
+End Histories.
